@@ -262,3 +262,36 @@ P["C18"] = {
         "the entropy override and the sample tape are the existing verif hooks (rng_hooks); no new hook is needed for C18",
     ],
 }
+
+P["C12"] = {
+    "lean_modules": ["Heathcliff.Props.C12"],
+    "level": "proof",
+    "runs": lambda tier, seed: ([{"seed": seed}] if tier == "quick" else
+                                [{"seed": seed, "args": ["tables"]}] + [{"seed": seed * 1000 + i, "args": ["chain%d" % i]} for i in range(19)]),
+    "search": lambda tier, seed: [{"seed": seed * 7919 + i} for i in range(2)],
+    "rule": ("Real CKKS contexts built by hand (SecurityLevel::None): N = 2..64 (thorough ..1024), chains of 1,2,3,4,5,7,11,19 (thorough 1..19) primes of 20..60 bits "
+             "(all-20, all-60, all-30, alternating 60/20, random sizes), every data level (quick: first, middle, last + one random when more than 4). Per level: the vector entry point with 10 "
+             "patterns (zero, unit vectors real/imaginary/negative/complex, all positive, all negative, alternating signs, purely imaginary, mixed complex, constant, short incl. empty, "
+             "+-2^60 in both parts; magnitudes 0, 1, 2^e, 2^e-1, x.5, fractions, random mantissas up to 2^60) x scales 2^0, around the 64-bit and the 128-bit path boundary, next to "
+             "the modulus, the largest admissible 2^(B-2), non-powers of two, random; single complex / single real / coefficient lists (lengths 1..N, the DESIGN witness [3,-2]) at each of "
+             "the 7 scale placements; ~45 integers per level (0, +-1, i64::MIN/MAX, +-q_j, +-q_j-1, +-2^35, +-2^(B-4..B-2), random of every bit length); refusals (scale 0, negative, "
+             "2^(B-1), 2^B, 2^1023, inf; too many values; magnitudes 2^(B-4)..2^(B+1) and ratio*Q for ratio in {0.25,0.49,0.51,0.6,0.75,0.99,1.5}); decode of arbitrary plaintexts "
+             "(uniform residues, signed small / 62-bit coefficients, (Q-1)/2 and (Q+1)/2, non-NTT plaintexts, bad scales). Every successful encoding is also decoded (decode and "
+             "decode_polynomial) on the same line. Tables: matrix_reps_index_map, ComplexRoots::get_root for every index in [0, 2m+3) (m <= 512, sampled + boundaries above, masking "
+             "included) and root_powers / inv_root_powers, for N = 2..512 (thorough 8192). The path-selecting bit count and the f64 coefficients right before rounding are observed through "
+             "the cfg(verif) tap: the model's three integer->RNS paths + model NTT must reproduce the plaintext bit for bit."),
+    "explanation": ("level=partial: the integer / exact-arithmetic clauses are theorems (33 audited); the double-precision clause (error of the f64 FFT, log2, rounding of v*scale, 1/scale) is not "
+                    "expressible in Lean (Float is opaque) and is checked by a tolerance oracle only: exact inverse canonical embedding in 320-bit fixed point (roots of unity by half-angle integer "
+                    "square roots from i; no libm), every RNS component of the plaintext (after the model inverse NTT, HC.intt of C09) must hold the residues of ONE integer vector c' with "
+                    "|c' - c| <= tol; tol(vec/cplx) = 3/2 + (10k+3)*2^-53*scale*(2*sum_i(|re v_i|+|im v_i|))/N [per butterfly layer (1+u)(1+sqrt5 u)(1+6u) <= 1+10u: complex add, complex mul, "
+                    "stored root (libm cos/sin <= 1ulp, angle <= 4u); k layers + scaling by scale/N], tol(real/poly) = 3/2 + 2^-52*|v*scale|, tol(int) = 0; decode: per coefficient "
+                    "(L+4)*2^-53*S_j/scale (S_j = sum of the absolute limb terms of the fold as the code forms them) plus (10k+2)*2^-53*sum_j|r_j| for the forward transform; decode(encode(v)) vs v "
+                    "within N*tol_enc/scale + tol_dec. Acceptance zones: scaled magnitude M > Q/2 (beyond tol) must be refused, M < 2^(B-3) must be accepted, in between either refusal or a correct "
+                    "encoding; exact magnitudes >= 2^1000 (outside the f64 range) and the empty coefficient list are outside the documented domain (ANY)."),
+    "assumptions": [
+        "PARTIAL: no theorem is about f64; theorems are over Int / ℚ / any commutative *-ring with a primitive 2N-th root (instantiated over ℂ with Complex.exp); the floating-point FFT is tied to them only by the tolerance oracle",
+        "the path-selecting bit count (`max_coeff.log2().ceil()`, `value.abs().log2() as usize + 2`) and the pre-rounding coefficients are INPUTS of the model, observed through the add-only tap verif::ckks_hooks (hook.patch); scale refusals are modelled with exact comparisons (generators use scales with at most 11 mantissa bits, where libm log2 cannot flip the comparison)",
+        "libm values (cos/sin of the octant table) are never compared exactly: get_root's index/mirror/sign logic is compared bit for bit GIVEN the stored octant table, and every table entry must be within 2^-50 of the exact root",
+        "model = repaired behaviour of the two defects of DESIGN.md §7 (fix.patch: i64 negatives, coefficient-list path selection); a third defect found by this check (array / coefficient-list entry points accept scaled magnitudes in (Q/2, 2^(B-1)]: missing sign bit in the bit-count test) is recorded in known_findings.json (status known, cases labelled `.gap` by the harness) and repaired by fix_signbit.patch",
+    ],
+}
